@@ -14,7 +14,7 @@
 // callback ran, whether ErrorChan reported an error.  Every expectation comes
 // from the row; this driver only builds bytes and compares.
 //
-//	c17 cases.ndjson          replay all rows
+//	c17 cases.ndjson ...      replay all rows (one file per slice of the configuration space)
 //	c17 -replay replay.json   re-run one recorded case
 package main
 
@@ -998,15 +998,28 @@ func main() {
 		j := rp.Job
 		jobs = append(jobs, &j)
 	} else {
-		if len(args) != 1 {
-			rep.Dead("usage: c17 cases.ndjson | c17 -replay file")
+		if len(args) < 1 {
+			rep.Dead("usage: c17 cases.ndjson [more.ndjson ...] | c17 -replay file")
 		}
-		rows, err := vh.ReadNDJSON[row](args[0])
-		if err != nil {
-			rep.Dead("%v", err)
-		}
-		if len(rows) == 0 {
-			rep.Dead("%s holds no rows", args[0])
+		// the slices of the configuration space come from separate TLC runs
+		var rows []row
+		seen := map[string]bool{}
+		for _, a := range args {
+			rs, err := vh.ReadNDJSON[row](a)
+			if err != nil {
+				rep.Dead("%v", err)
+			}
+			if len(rs) == 0 {
+				rep.Dead("%s holds no rows", a)
+			}
+			for i := range rs {
+				if k := rs[i].cfgKey(); seen[k] {
+					rep.Dead("configuration %s is emitted twice (overlapping slices)", k)
+				} else {
+					seen[k] = true
+				}
+			}
+			rows = append(rows, rs...)
 		}
 		checkVersionCoverage(rows)
 		variants := 1
